@@ -758,6 +758,10 @@ func c14Retry(c *Ctx, rx *PkgIndex, m otlpMod) {
 							y = unparen(def)
 						}
 					}
+					// … or a field of a small local struct that was given it (budget.limit)
+					if fd, _ := g.FieldDef(y); fd != nil {
+						y = unparen(fd)
+					}
 					if sel, isSel := y.(*ast.SelectorExpr); isSel && sel.Sel.Name == "MaxElapsedTime" {
 						mentions = true
 					}
@@ -815,8 +819,16 @@ func c14Retry(c *Ctx, rx *PkgIndex, m otlpMod) {
 				return true
 			}
 			n++
+			// the start may be kept in a small local struct built at the start of the request (budget.start)
+			if fd, st := g.FieldDef(call.Args[0]); fd != nil && st != nil {
+				if c2, ok := unparen(fd).(*ast.CallExpr); ok && isCallTo(info, c2, "time.Now") && !inLoop(enabled, st) {
+					return true
+				}
+				bad = append(bad, exprStr(call.Args[0])+" (not time.Now() at the start of the request)")
+				return true
+			}
 			v, isV := objOf(info, call.Args[0]).(*types.Var)
-			if !isV || v.Pos() < enabled.Body().Pos() || v.Pos() > enabled.Body().End() {
+			if !isV || !definedIn(info, enabled.Body(), v) {
 				bad = append(bad, exprStr(call.Args[0]))
 				return true
 			}
